@@ -24,15 +24,21 @@ type abInput struct {
 	Seed    int64    `json:"seed"`
 }
 
-func abGen(r *rand.Rand) *abInput {
+func abGen(r *rand.Rand, live bool) *abInput {
 	in := &abInput{Sticky: []int{0, 20, 60}[r.Intn(3)], Seed: r.Int63()}
 	nt := 2 + r.Intn(3)
+	if live {
+		in.Sticky = []int{0, 10, 30}[r.Intn(3)]
+	}
 	for t := 0; t < nt; t++ {
 		var prog []abOp
 		held := 0
 		m := 1 + r.Intn(5)
 		for k := 0; k < m; k++ {
 			x := r.Intn(100)
+			if live && t >= nt-2 && x < 60 {
+				x = 90 // the last two threads mostly flush: sessions terminating close together
+			}
 			switch {
 			case x < 35:
 				prog = append(prog, abOp{Op: "acq"})
@@ -48,7 +54,7 @@ func abGen(r *rand.Rand) *abInput {
 			}
 		}
 		// most programs release what they hold at the end
-		if r.Intn(4) > 0 {
+		if live || r.Intn(4) > 0 {
 			for ; held > 0; held-- {
 				prog = append(prog, abOp{Op: "rel", K: 0})
 			}
@@ -297,11 +303,19 @@ func abRun(in *abInput, sink *CaseSink) {
 }
 
 func init() {
-	commands["barrier"] = func(a runArgs) error {
-		sink := NewSink(a.out, "C16", "Tie.BarrierTie", a.seed)
+	commands["barrier"] = abCommand("C16", false)
+	commands["barrier-live"] = abCommand("C17", true)
+}
+
+func abCommand(prop string, live bool) func(a runArgs) error {
+	return func(a runArgs) error {
+		sink := NewSink(a.out, prop, "Tie.BarrierTie", a.seed)
 		sink.scope = "nat_scope"
 		sink.perFile = 150
-		sink.meta.Rule = "2..4 goroutines with programs of 1..5 Acquire/Release(k-th held token)/FlushSession ops (nested holders, flush while holding), random schedules (stickiness 0/20/60%) under the deterministic scheduler parking at the ten barrier yield points; after every step the number of destructor calls so far is compared with the model; non-trivial = at least one flush and three steps inside Release/doCleanup windows; distinct by Coq term"
+		if live {
+			sink.meta.Rule = "liveness flavour: every program releases all its tokens, the last two goroutines mostly flush (sessions terminating at nearly the same time), low stickiness; at quiescence the destructor must have run for every flush and the queue must be empty; "
+		}
+		sink.meta.Rule += "2..4 goroutines with programs of 1..5 Acquire/Release(k-th held token)/FlushSession ops (nested holders, flush while holding), random schedules (stickiness 0/20/60%) under the deterministic scheduler parking at the ten barrier yield points; after every step the number of destructor calls so far is compared with the model; non-trivial = at least one flush and three steps inside Release/doCleanup windows; distinct by Coq term"
 		if a.replay != "" {
 			bs, err := os.ReadFile(a.replay)
 			if err != nil {
@@ -318,7 +332,7 @@ func init() {
 		}
 		top := rand.New(rand.NewSource(a.seed))
 		for i := 0; i < a.n; i++ {
-			in := abGen(top)
+			in := abGen(top, live)
 			sink.Begin(in)
 			abRun(in, sink)
 		}
